@@ -19,6 +19,7 @@ class Contract:
         self.returns = kw.pop("returns", None)      # type tag of result
         self.pure = kw.pop("pure", False)           # modifies nothing pre-existing
         self.noalloc = kw.pop("noalloc", False)     # allocates nothing
+        self.frame_hist = kw.pop("frame_hist", False)  # also prove the frame of the ghost call histories
         self.labels = kw.pop("labels", {})          # index -> label for ensures clauses
         self.assumed = kw.pop("assumed", False)     # library / shape contract: never verified, listed as trusted
         self.signature = kw.pop("signature", None)  # for shape methods: 'test, err=None, details=None'
